@@ -272,7 +272,7 @@ def run_check(pid, tier, seed):
     if rvh and ref_cov[1]:
         cov["reference_fs"] = {"calls_in_compared_histories": ref_cov[1], "covered_by_reference": ref_cov[0], "disagreements_with_mirror": ref_cov[2],
                                "note": "the reference tree filesystem (Memfs/Spec.v, RefineHistory.v spec_step) run beside the mirror on its own tree; a call it does not "
-                                       "cover (copy onto existing entries, with links or follow; entries; symbolic or partial chmod; chown / chmod with follow) re-reads the tree from the mirror's state"}
+                                       "cover (copy onto existing entries, with links or follow; unsorted or following traversals; a chmod leaving a node at value 0; chown / chmod with follow) re-reads the tree from the mirror's state"}
 
     # ---- 3. report
     kf = load_known_findings()
